@@ -440,7 +440,35 @@ class Effects:
                 out |= self._buffer_index(n, f)
             elif isinstance(n, (ast.Compare, ast.BinOp)):
                 out |= self._optional_operand(n, f)
+        for n in A.walk_no_nested(e):
+            if isinstance(n, ast.Call):
+                out |= self._optional_receiver(n, f)
         return out
+
+    def _optional_receiver(self, c: ast.Call, f: FuncInfo) -> set[str]:
+        """AttributeError for a method call on an AVP attribute of a typed message (None when
+        the AVP is absent; hasattr() is no guard - the attribute always exists)."""
+        if self.profile == "faults":
+            return set()
+        fn = c.func
+        if not (isinstance(fn, ast.Attribute) and isinstance(fn.value, ast.Attribute)
+                and isinstance(fn.value.value, ast.Name)):
+            return set()
+        o = fn.value
+        if o.attr in ("header", "avps") or o.attr.startswith("_"):
+            return set()
+        if o.value.id not in [a.arg for a in f.node.args.args]:
+            return set()
+        from .typesx import expr_type
+        try:
+            t = expr_type(self.model, f, o.value)
+        except Exception:
+            return set()
+        if isinstance(t, ClassInfo) and self._is_message_class(t) and not self._none_guarded(o, c, f) \
+                and self.model.find_method(t, o.attr) is None:
+            self._note(f, c, ["AttributeError"], f"`{ast.unparse(o)}` is None when the AVP is absent")
+            return {"AttributeError"}
+        return set()
 
     def _optional_operand(self, n: ast.AST, f: FuncInfo) -> set[str]:
         """TypeError for ordering comparisons / arithmetic on an attribute of a received typed
